@@ -336,7 +336,8 @@ def callback(rng, stop=True):
         # scipy.optimize.minimize read a true return value as a stop
         # request; cobyqa documents StopIteration only)
         cb["returns"] = str(rng.choice(["True", "np_true", "one", "str",
-                                        "list", "False", "array"]))
+                                        "list", "False", "array", "array2",
+                                        "echo"]))
     return cb
 
 
